@@ -127,7 +127,31 @@ def handleC07 (op : String) (input impl : Json) : Except String Json := do
         | .error _ => pure [])
       pure ((if issues.isEmpty then [] else ["received-table-diagnosis-clean"]) ++
             (if same then [] else ["received-table-index-and-profile-rebuilt-identically"]) ++ inv.map (fun s => "received-table:" ++ s))
+    -- interrupted deliveries: packfile k cut after `c` bytes, handed to a copy of the destination as it
+    -- was before that packfile. The framing is 8 header bytes, then each object with its type/length
+    -- prefix; the object boundaries follow from the object sizes. A cut on a boundary is a complete
+    -- (shorter) packfile: accepted. Any other cut ends inside the header or inside an object: it must be
+    -- refused. Either way the copy then holds exactly what the complete objects before the cut bring
+    -- (model: `receiveAll` on that prefix), each identical to the source's object.
+    let toKey := fun (k : Nat × Nat) => objKeyOf k.1 k.2
+    let cuts ← (← asArr (fldD v "cuts" (Json.arr #[]))).mapM asNatList
+    let cutViol := cuts.flatMap fun ct =>
+      match ct with
+      | [k, c, refused, same, nc, ntb, nb] =>
+        let objs := (ipacks.getD k []).map toKey
+        let bounds := objs.foldl (fun (acc : List Nat) o => acc ++ [(acc.getLast?.getD 8) + size o]) [8]
+        let onBoundary := bounds.contains c
+        let complete := (bounds.drop 1).countP (· ≤ c)
+        let before := ((ipacks.take k).flatten.map toKey) ++ objs.take complete
+        let expect := match receiveAll src dst0 before with
+          | .ok d => some (d.commits.length, d.tables.length, d.blocks.length)
+          | _ => none
+        (if onBoundary || refused == 1 then [] else ["truncated-packfile-refused"]) ++
+        (if onBoundary && refused == 1 && expect.isSome then ["complete-objects-accepted"] else []) ++
+        (if same == 1 && expect == some (nc, ntb, nb) then [] else ["interrupted-transfer-leaves-only-complete-source-objects"])
+      | _ => ["bad-cut-record"]
     let viol :=
+      cutViol.eraseDups ++
       (if identical then [] else ["objects-byte-identical"]) ++
       (if done then [] else ["receiver-reports-done"]) ++
       (if mustCommits.all (fun c => hasKey (1, c)) && needTables.all (fun t => hasKey (2, t)) && needBlocks.all (fun b => hasKey (3, b)) then [] else ["all-sent-objects-present"]) ++
